@@ -30,7 +30,7 @@ META = {
                   "for Pareto dominance with any number of objectives, any directions, with and without constraint violations. The model is tied to /repo "
                   "on every run by an operation-sequence correspondence (return value and full contents compared after every operation, in Coq by "
                   "vm_compute) and a brute-force oracle on the real Archive with history shrinking.",
-    "level_note": "Trusted: Coq kernel + VM; the harness (literal printer, shard runner); the hand-written model is tied to the code only on the sampled "
+    "level_note": "Tie/T03.v also states the characterisation about the Archive.add GENERATED from the source text (tie_c03_generated_archive_char). Trusted: Coq kernel + VM; the harness (literal printer, shard runner); the hand-written model is tied to the code only on the sampled "
                   "histories of the correspondence (random histories of 0-60 operations over {0..4}^m, m<=3, plus all add-histories of length <=3 (quick) / <=5 "
                   "(thorough) over {0,1,2}^2). Theorems assume well-formed solutions (as many objectives as the problem has, violation >= 0) and the "
                   "default ParetoDominance; NaN objectives are outside the property. Archive.remove and the bounded subclasses are not part of C03. "
